@@ -2,7 +2,7 @@
     ONLY statements pinned here; proofs live in Dashu.Conv.*. *)
 From Dashu Require Import Base.Prelude Float.RoundSpec Float.Contract Float.Model Conv.ConvSpec Conv.ConvModel Conv.ConvPrimProofs
   Conv.ConvArith Conv.ConvIeee Conv.ConvEncodeProofs Conv.ConvStickyProofs Conv.ConvDecodeProofs Conv.ConvRatProofs Conv.ConvFindings Conv.ConvSmallProofs Conv.ConvRatFull.
-From Dashu Require Import Conv.ConvFlocq Conv.ConvFlocqCor Conv.ConvParamsProof.
+From Dashu Require Import Conv.ConvFlocq Conv.ConvFlocqCor Conv.ConvParamsProof Conv.ConvFloatProofs Conv.ConvTryProofs.
 From DashuGen Require Import ConvParams.
 From Coq Require Import List.
 Import ListNotations.
@@ -121,12 +121,15 @@ Proof. exact encode_decode_f64. Qed.
 Print Assumptions C06_encode_decode_f64.
 
 (** open findings: the as-is models leave the specification on the recorded witnesses *)
-Theorem C06_rat_to_float_double_rounding_refuted :
-  rat_to_fbig 10 2 MHalfAway 9449 1000 = AInexact 95 (-1) AddOne /\
+(** F37 repaired (RBig::to_float rounds once): the former witnesses now meet the specification *)
+Theorem C06_rat_to_float_single_rounding_witness :
+  rat_to_fbig 10 2 MHalfAway 9449 1000 = AInexact 94 (-1) NoOp /\
   rat_to_fbig_spec 10 2 MHalfAway 9449 1000 = (94, -1, Lt) /\
-  rat_to_fbig_twice 10 2 MHalfAway 9449 1000 = true.
-Proof. exact rat_to_fbig_refuted. Qed.
-Print Assumptions C06_rat_to_float_double_rounding_refuted.
+  flag_of_error 1 Lt = Some NoOp /\
+  rat_to_fbig_twice 10 2 MHalfAway 9449 1000 = false /\
+  rat_to_fbig 10 3 MHalfAway 12346 1000 = AInexact 123 (-1) NoOp.
+Proof. exact rat_to_fbig_repaired_witness. Qed.
+Print Assumptions C06_rat_to_float_single_rounding_witness.
 
 Theorem C06_fbig_to_float_subnormal_refuted :
   fbig_to_float P32 2 MHalfEven 3 (-151) = Ok (FR 1 (Some NoOp)) /\
@@ -282,3 +285,110 @@ Theorem C06_source_literals_tie :
   UNDER P32 = - (BIAS P32 - 1) - MB P32 /\ UNDER P64 = - (BIAS P64 - 1) - MB P64.
 Proof. exact conv_params_tie. Qed.
 Print Assumptions C06_source_literals_tie.
+
+(** FBig<R,2>::to_f32 (mode R) / to_f64 (the harness passes HalfEven, as the code does): normalise,
+    round to 24 / 53 bits under the mode, into_f32/f64_internal.  Outside the open class
+    fbig_to_float_subnormal (results below the smallest normal number) the result is the value
+    rounded under the mode with the truthful flag, for every mode, significand and exponent,
+    including the overflow to infinity *)
+Theorem C06_fbig2_to_f64 : forall m s e,
+  s <> 0 -> emin F64 + prec F64 - 1 < blen (Z.abs s) + e ->
+  fbig2_to_float P64 m s e =
+    FR (fst (ieee_round F64 m (fst (frac_of s e)) (snd (frac_of s e))))
+       (flag_of_error (Z.sgn s) (snd (ieee_round F64 m (fst (frac_of s e)) (snd (frac_of s e))))).
+Proof. exact fbig2_to_f64_correct. Qed.
+Print Assumptions C06_fbig2_to_f64.
+
+Theorem C06_fbig2_to_f32 : forall m s e,
+  s <> 0 -> emin F32 + prec F32 - 1 < blen (Z.abs s) + e ->
+  fbig2_to_float P32 m s e =
+    FR (fst (ieee_round F32 m (fst (frac_of s e)) (snd (frac_of s e))))
+       (flag_of_error (Z.sgn s) (snd (ieee_round F32 m (fst (frac_of s e)) (snd (frac_of s e))))).
+Proof. exact fbig2_to_f32_correct. Qed.
+Print Assumptions C06_fbig2_to_f32.
+
+(** ... and for a significand that already fits (at most 53 / 24 bits) over the WHOLE exponent range,
+    subnormal results included: the bits are the round-to-nearest-even pattern whatever the mode
+    (only encode rounds), the flag is None exactly when nothing was lost *)
+Theorem C06_fbig2_to_f64_short : forall m s e, s <> 0 -> blen (Z.abs s) <= 53 ->
+  fbig2_to_float P64 m s e =
+    FR (fst (ieee_rne F64 (fst (frac_of s e)) (snd (frac_of s e))))
+       (short_flag P64 s e (snd (ieee_rne F64 (fst (frac_of s e)) (snd (frac_of s e))))).
+Proof. exact fbig2_to_f64_short. Qed.
+Print Assumptions C06_fbig2_to_f64_short.
+
+Theorem C06_fbig2_to_f32_short : forall m s e, s <> 0 -> blen (Z.abs s) <= 24 ->
+  fbig2_to_float P32 m s e =
+    FR (fst (ieee_rne F32 (fst (frac_of s e)) (snd (frac_of s e))))
+       (short_flag P32 s e (snd (ieee_rne F32 (fst (frac_of s e)) (snd (frac_of s e))))).
+Proof. exact fbig2_to_f32_short. Qed.
+Print Assumptions C06_fbig2_to_f32_short.
+
+(** TryFrom<FBig> / TryFrom<Repr> for IBig, UBig and the primitive types; From<UBig/IBig> for FBig;
+    TryFrom<RBig> for UBig/IBig; TryFrom<FBig> for RBig: exact or refused (models in Conv/ConvTryProofs.v) *)
+Theorem C06_fbig_to_ibig : forall B s e, 2 <= B -> (s mod B <> 0 \/ (s = 0 /\ e = 0)) ->
+  fbig_try_to_ibig B false s e = rat_to_int_spec false (fst (repr_frac B s e)) (snd (repr_frac B s e)).
+Proof. exact fbig_try_to_ibig_correct. Qed.
+Print Assumptions C06_fbig_to_ibig.
+
+Theorem C06_fbig_to_ibig_only_if_exact : forall B inf s e v, 0 < B ->
+  fbig_try_to_ibig B inf s e = COk v -> inf = false /\ 0 <= e /\ v = s * B ^ e.
+Proof. exact fbig_try_to_ibig_ok. Qed.
+Print Assumptions C06_fbig_to_ibig_only_if_exact.
+
+Theorem C06_fbig_to_ubig_only_if_exact : forall B inf s e v, 0 < B ->
+  fbig_try_to_ubig B inf s e = COk v -> inf = false /\ 0 <= e /\ v = s * B ^ e /\ 0 <= v.
+Proof. exact fbig_try_to_ubig_ok. Qed.
+Print Assumptions C06_fbig_to_ubig_only_if_exact.
+
+Theorem C06_fbig_to_ubig_refused_iff : forall B inf s e, 0 < B ->
+  (forall v, fbig_try_to_ubig B inf s e <> COk v) <-> (inf = true \/ e < 0 \/ s < 0).
+Proof. exact fbig_try_to_ubig_refused. Qed.
+Print Assumptions C06_fbig_to_ubig_refused_iff.
+
+(** primitives: for EVERY sound lower estimate of log2 (the log2_bounds shortcut) *)
+Theorem C06_fbig_to_prim : forall B : Z, 2 <= B -> forall lb : Z -> Z -> Z,
+  (forall s e : Z, s <> 0 -> 0 <= e -> 0 <= lb s e -> 2 ^ lb s e <= Z.abs s * B ^ e) ->
+  forall (w : Z) (sg : bool) (TW s e : Z), widths_ok w TW -> 0 <= e ->
+  fbig_try_to_prim lb w B sg TW false s e = to_prim_spec sg TW (s * B ^ e).
+Proof. exact fbig_try_to_prim_correct. Qed.
+Print Assumptions C06_fbig_to_prim.
+
+Theorem C06_fbig_to_prim_only_if_exact : forall B : Z, 2 <= B -> forall lb : Z -> Z -> Z,
+  (forall s e : Z, s <> 0 -> 0 <= e -> 0 <= lb s e -> 2 ^ lb s e <= Z.abs s * B ^ e) ->
+  forall (w : Z) (sg : bool) (TW : Z) (inf : bool) (s e v : Z), widths_ok w TW ->
+  fbig_try_to_prim lb w B sg TW inf s e = COk v ->
+  inf = false /\ 0 <= e /\ v = s * B ^ e /\ prim_fits sg TW v = true.
+Proof. exact fbig_try_to_prim_ok. Qed.
+Print Assumptions C06_fbig_to_prim_only_if_exact.
+
+Theorem C06_int_fbig_roundtrip : forall B v, 2 <= B ->
+  fbig_try_to_ibig B false (fst (int_to_repr B v)) (snd (int_to_repr B v)) = COk v.
+Proof. exact int_repr_roundtrip. Qed.
+Print Assumptions C06_int_fbig_roundtrip.
+
+Theorem C06_rat_to_ubig : forall N D, 0 < D -> Z.gcd N D = 1 -> rat_try_to_ubig N D = rat_to_int_spec true N D.
+Proof. exact rat_try_to_ubig_correct. Qed.
+Print Assumptions C06_rat_to_ubig.
+
+Theorem C06_rat_to_ibig : forall N D, 0 < D -> Z.gcd N D = 1 -> rat_try_to_ibig N D = rat_to_int_spec false N D.
+Proof. exact rat_try_to_ibig_correct. Qed.
+Print Assumptions C06_rat_to_ibig.
+
+Theorem C06_rat_to_int_only_if_exact : forall uns N D v, 0 < D ->
+  rat_to_int_spec uns N D = COk v -> v * D = N /\ (uns = true -> 0 <= v).
+Proof. exact rat_to_int_spec_ok. Qed.
+Print Assumptions C06_rat_to_int_only_if_exact.
+
+Theorem C06_int_rat_roundtrip : forall v,
+  rat_try_to_ibig (fst (int_to_rat v)) (snd (int_to_rat v)) = COk v /\
+  (0 <= v -> rat_try_to_ubig (fst (int_to_rat v)) (snd (int_to_rat v)) = COk v) /\
+  Z.gcd (fst (int_to_rat v)) (snd (int_to_rat v)) = 1.
+Proof. exact int_rat_roundtrip. Qed.
+Print Assumptions C06_int_rat_roundtrip.
+
+Theorem C06_fbig_to_rbig : forall B s e, 2 <= B ->
+  exists n d, fbig_try_to_rbig B false s e = COk (n, d) /\ 0 < d /\ Z.gcd n d = 1 /\
+              n * snd (repr_frac B s e) = fst (repr_frac B s e) * d.
+Proof. exact fbig_try_to_rbig_correct. Qed.
+Print Assumptions C06_fbig_to_rbig.
